@@ -335,14 +335,17 @@ func init() {
 		Harnesses: func(tier string) []HarnessSpec {
 			return []HarnessSpec{{Name: "two-nodes-contract-transport", Pkg: "remote", Func: "ZZ_C17", Preempt: 0,
 				Params:    pm("K", tierSel(tier, 2, 3), "TLS", 1, "EMPTY", 1, "ZZMAXALLOC", 1100000, "ZZDETSCHED", 1),
-				Witnesses: []string{"delivered", "dead-lettered", "burst", "peer-down", "peer-up", "reply", "unreachable-and-connected-in-one-history", "tls-configured", "sender-is-a-target-on-the-peer", "empty-message"}, Deadline: 90 * time.Minute}}
+				Witnesses: []string{"delivered", "dead-lettered", "burst", "peer-down", "peer-up", "reply", "unreachable-and-connected-in-one-history", "tls-configured", "sender-is-a-target-on-the-peer", "empty-message"}, Deadline: 90 * time.Minute},
+				{Name: "burst-order-under-message-boundary-interleavings", Pkg: "remote", Func: "ZZ_C17_Order", Preempt: tierSel(tier, 3, 4),
+					Params:    pm("M", tierSel(tier, 4, 5), "WARM", 1, "ZZMAXALLOC", 1100000, "ZZDETSCHED", 1, "ZZMARKONLY", 1),
+					Witnesses: []string{"burst-delivered-in-order", "connection-established-before-the-burst"}, Deadline: 60 * time.Minute}}
 		},
 		Bounds: func(tier string) string {
-			return fmt.Sprintf("two nodes A and B; quiescent histories of %d operations (send A->B: to one of 2 targets with or without sender, or relayed on behalf of an actor on B that is itself a target, or an empty message that serialises to zero bytes; burst of two sends; B's reader consumes what has arrived; B comes up / becomes reachable; B becomes unreachable and its connections break; B sends to an actor on A), B initially up or not started, both nodes configured with or without a TLS config (TLS itself is not modelled; tls.Dial keeps its real shape: a concrete *Conn that is nil on failure); then Start twice, Stop().Wait(), Stop again, Stop before Start; one schedule per history (deterministic scheduler), payload = remote.TestMessage with one data byte", tierSel(tier, 2, 3))
+			return fmt.Sprintf("two nodes A and B; quiescent histories of %d operations (send A->B: to one of 2 targets with or without sender, or relayed on behalf of an actor on B that is itself a target, or an empty message that serialises to zero bytes; burst of two sends; B's reader consumes what has arrived; B comes up / becomes reachable; B becomes unreachable and its connections break; B sends to an actor on A), B initially up or not started, both nodes configured with or without a TLS config (TLS itself is not modelled; tls.Dial keeps its real shape: a concrete *Conn that is nil on failure); then Start twice, Stop().Wait(), Stop again, Stop before Start; one schedule per history (deterministic scheduler), payload = remote.TestMessage with one data byte; order harness: one goroutine sends %d numbered messages to one target on B (connection established beforehand by an earlier message, or by the burst itself), interleaved with A's router and writer actors at message boundaries with at most %d preemptions", tierSel(tier, 2, 3), tierSel(tier, 4, 5), tierSel(tier, 3, 4))
 		},
 		Outside: []string{
 			"REDUCED SCOPE - real TCP, TLS, the DRPC library (framing, its goroutines, flow control) and the OS are replaced by a contract transport: a dial succeeds exactly when the peer serves and is reachable, frames on an established connection arrive once and in order, a broken connection loses what was not yet read. That TCP+DRPC honour this contract is assumed, not checked",
-			"interleavings: every operation is followed by quiescence and the scheduler is deterministic, so concurrent senders and timing-dependent batch formation beyond the two-message burst are outside",
+			"interleavings: in the history harness every operation is followed by quiescence and the scheduler is deterministic, so concurrent senders and timing-dependent batch formation beyond the two-message burst are outside; the order harness interleaves ONE sender goroutine with the router and writer actors of the sending node at message boundaries only (start of every actor message handling, between two sends), within the preemption bound - preemption in the middle of a message handler, several concurrent senders and several targets are outside",
 			"wall-clock behaviour of the 3 dial retries and the idle deadline (time.Sleep is a model)",
 			"more than two nodes / peer addresses, longer histories",
 			"protobuf reflection: ProtoSerializer's three methods are modelled by the message's own generated VT codec and a registry of the module's message types",
